@@ -427,7 +427,7 @@ def judge(rec, rnd, txns, gl, views):
 def run(rec, shard, nshards, t):
     core.import_tally()
     rnd = core.rng_for('C10', shard)
-    for i in range((300 if t == 'quick' else 15000) // nshards):
+    for i in range((300 if t == 'quick' else 40000) // nshards):
         txns = gen_txns(rnd)
         gl, views = gen_views(rnd)
         judge(rec, rnd, txns, gl, views)
